@@ -12,7 +12,8 @@ MANIFEST = dict(
          "re-associated is deleted by the flush while a re-associated one is kept, and after any flush no row survives whose delete-orphan "
          "parent row is gone. Every edge is replayed against the real ORM (session membership, session.deleted and rows after every step).",
     design_ref="3.9, 4 (C39), 6 (C39), Appendix I",
-    note="trusted: TLC; cascades of one one-to-many relationship (merge and refresh-expire reach not exercised: no merge/refresh actions); "
+    note="trusted: TLC; cascades of one one-to-many relationship (bidirectional with back_populates, and unidirectional where a move is two explicit "
+         "steps) (merge and refresh-expire reach not exercised: no merge/refresh actions); "
          "the save-update traversal halts at objects that already are members (named deviation HaltOnMember); SQLite only",
     technique="TLA+ spec (OrmGraph.tla) + TLC exhaustive model checking per cascade constant; spec->code replay of every state-graph edge")
 ACTS = ["Add", "Delete", "Expunge", "Append", "Remove", "SetParent", "Replace", "Flush", "CommitReload"]
@@ -45,6 +46,15 @@ def main(chk):
                    mk("default-2x2", "default", 2, 4), mk("none-2x2", "none", 2, 4)]
         deep = [dict(name="deep-%s-2x3" % n, casc=n, consts=oc.consts(n, 3, 5, acts=ACTS), invs=INVS, props=PROPS) for n in ("orphan", "all")] + \
                [dict(name="deep-%s-2x2" % n, casc=n, consts=oc.consts(n, 2, 6, acts=ACTS), invs=INVS, props=PROPS) for n in ("delete", "default", "none")]
+    # unidirectional mapping (no backref): a move is two explicit steps - attach to the new parent (possibly one without an identity key yet),
+    # detach from the old one - and the orphan rule is judged at flush (added for seeded change C39-1)
+    UACTS = ["Add", "Append", "Remove", "Replace", "Delete", "Expunge", "Flush", "CommitReload"]
+    UPROPS = ["UniMemberKept", "AddReachesClosure", "DeleteMarksExactly", "MarkedAreDeleted", "ExpungeExactly"]
+    configs.append(dict(name="orphan-uni", casc="orphan", consts=oc.consts("orphan", 2, 5 if q else 6, acts=UACTS, init="half", uni=True), invs=INVS, props=UPROPS,
+                        maxlen=5 if q else 6, nrandom=nr, footprint=UACTS))
+    if not q:
+        configs.append(dict(name="delete-uni", casc="delete", consts=oc.consts("delete", 2, 5, acts=UACTS, init="both", uni=True), invs=INVS, props=UPROPS,
+                            maxlen=5, nrandom=nr, footprint=UACTS))
     what = ("re-associating a child that has no row yet under delete-orphan throws it out of the session: the backref's removal from the old "
             "parent fires the delete-orphan listener, which expunges the pending child although it is being moved to another parent "
             "(c.parent = p2 / p2.children.append(c) with c pending in p1.children): c ends transient inside p2.children and is not inserted "
